@@ -58,7 +58,11 @@ type Case struct {
 	// Big: that many further distinct ranges (80.0.0.0/4 space) are added after the fillers, so that the
 	// number of live entries passes 2^16 (a table index, counter or size hint narrower than int shows
 	// only there); BigDrain removes them all again after the ops and probes once more
-	Big      int  `json:"big,omitempty"`
+	// Reuse: the caller recycles one net.IPNet (one address buffer, one mask buffer) for all its
+	// well-formed Add / Remove calls and one buffer for its lookups, overwriting them in place between
+	// the calls - the filter must not keep a reference to its argument
+	Reuse bool `json:"reuse,omitempty"`
+	Big   int  `json:"big,omitempty"`
 	BigDrain bool `json:"big_drain,omitempty"`
 }
 
@@ -196,6 +200,15 @@ func runCase(cs Case, st *stats) (key, expected, observed string) {
 		return ""
 	}
 	bystanders(Op{IP: 10<<24 | 1<<16 | 2<<8 | 3, Ones: 8})
+	shared := &net.IPNet{IP: make(net.IP, 4), Mask: make(net.IPMask, 4)}
+	netOf := func(o Op) *net.IPNet {
+		if !cs.Reuse || o.Form != 0 {
+			return o.ipnet()
+		}
+		binary.BigEndian.PutUint32(shared.IP, o.IP)
+		binary.BigEndian.PutUint32(shared.Mask, maskOf(o.Ones))
+		return shared
+	}
 	r := rand.New(rand.NewSource(cs.Seed))
 	touched := map[rng]struct{}{}
 	touch := func(o Op) {
@@ -208,7 +221,7 @@ func runCase(cs Case, st *stats) (key, expected, observed string) {
 	adds := 0
 	for i := 0; i < cs.Filler; i++ {
 		o := fillerOp(i)
-		if err := f.Add(o.ipnet()); err != nil {
+		if err := f.Add(netOf(o)); err != nil {
 			return "filler-add-error", "nil", err.Error()
 		}
 		m.apply(o)
@@ -224,7 +237,7 @@ func runCase(cs Case, st *stats) (key, expected, observed string) {
 	}
 	for i := 0; i < cs.Big; i++ {
 		o := bigOp(i)
-		if err := f.Add(o.ipnet()); err != nil {
+		if err := f.Add(netOf(o)); err != nil {
 			return "big-add-error", "nil", err.Error()
 		}
 		m.apply(o)
@@ -241,7 +254,7 @@ func runCase(cs Case, st *stats) (key, expected, observed string) {
 			o := fillerOp(i)
 			o.Rem = true
 			o.IP ^= 0x3 // other host bits: non-canonical spelling of the same range
-			if err := f.Remove(o.ipnet()); err != nil {
+			if err := f.Remove(netOf(o)); err != nil {
 				return "filler-rem-error", "nil", err.Error()
 			}
 			m.apply(o)
@@ -273,9 +286,14 @@ func runCase(cs Case, st *stats) (key, expected, observed string) {
 			}
 			st.probes += int64(len(addrs))
 		}
-		for _, a := range addrs {
+		pbuf := make(net.IP, 4)
+		for ai, a := range addrs {
 			want := m.contains(a)
 			b := u2ip(a)
+			if cs.Reuse {
+				binary.BigEndian.PutUint32(pbuf, a)
+				b = pbuf
+			}
 			got4 := f.Contains(b)
 			got16 := f.Contains(net.IPv4(b[0], b[1], b[2], b[3]))
 			st.probes += 2
@@ -295,6 +313,21 @@ func runCase(cs Case, st *stats) (key, expected, observed string) {
 				return fmt.Sprintf("contains-ipv6:%v", m.matchAll), fmt.Sprintf("Contains(%s, a genuine IPv6 address)=%v %s", v6, m.matchAll, after), fmt.Sprintf("%v", got6)
 			}
 			st.probes++
+			// ... also when its sixth group happens to be ffff (only ten zero bytes in front of it make
+			// the IPv4-mapped form), and the deprecated IPv4-compatible form ::a.b.c.d is no IPv4 address either
+			if ai%3 != 0 {
+				continue
+			}
+			for _, v6 := range []net.IP{
+				{0x20, 0x01, 0x0d, 0xb8, 0, 0, 0, 0, 0, 0, 0xff, 0xff, b[0], b[1], b[2], b[3]},
+				{0, 0, 0, 0, 0, 0, 0, 0, 0, 1, 0xff, 0xff, b[0], b[1], b[2], b[3]},
+				{0, 0, 0, 0, 0, 0, 0, 0, 0, 0, 0, 0, b[0], b[1], b[2], b[3]},
+			} {
+				if got6 := f.Contains(v6); got6 != m.matchAll {
+					return fmt.Sprintf("contains-ipv6:%v", m.matchAll), fmt.Sprintf("Contains(%s, 16 bytes % x: no IPv4 address)=%v %s", v6, []byte(v6), m.matchAll, after), fmt.Sprintf("%v", got6)
+				}
+				st.probes++
+			}
 		}
 		return "", "", ""
 	}
@@ -305,9 +338,9 @@ func runCase(cs Case, st *stats) (key, expected, observed string) {
 	for i, o := range cs.Ops {
 		var err error
 		if o.Rem {
-			err = f.Remove(o.ipnet())
+			err = f.Remove(netOf(o))
 		} else {
-			err = f.Add(o.ipnet())
+			err = f.Add(netOf(o))
 		}
 		st.ops++
 		bystanders(o)
@@ -363,7 +396,7 @@ func runCase(cs Case, st *stats) (key, expected, observed string) {
 			o := bigOp(i)
 			o.Rem = true
 			o.IP ^= 0x2
-			if err := f.Remove(o.ipnet()); err != nil {
+			if err := f.Remove(netOf(o)); err != nil {
 				return "big-rem-error", "nil", err.Error()
 			}
 			m.apply(o)
@@ -387,7 +420,7 @@ type mon struct{}
 func (mon) Name() string { return "ipfilter" }
 
 func (mon) Level(string) (string, string) {
-	return "exploration", "operation sequences (exhaustive over a 12-op alphabet up to length 4 (quick) / 5 (thorough), and over a 10-op alphabet of edge ranges (network address 0.0.0.0, top of the address space) up to length 3, and the main alphabet to length 3 on filters whose 200/256/257/300 filler ranges were all removed again, replayed from empty and after 254/255/256 filler adds so that they run in list mode, across the list→map migration and in map mode; plus seeded random sequences over a small universe steered across the migration; plus histories on filters holding 65 535 .. 70 000 (thorough: 300 000) ranges, which are then all removed again), every boundary address of every touched range probed in 4- and 16-byte form (and as the tail of a genuine IPv6 address, which only 0.0.0.0/0 covers) against a set-of-prefixes model; the package's other exported helpers (FirstIP/LastIP) are called between the operations, and in 1/8 (exhaustive) resp. 1/3 (random) of the sequences a second filter instance receives the same history shifted into another address space, each instance probed with both spaces against its own model; distinct_nontrivial = distinct (filler, sequence) pairs whose sequence changes the model at least once"
+	return "exploration", "operation sequences (exhaustive over a 12-op alphabet up to length 4 (quick) / 5 (thorough), and over a 10-op alphabet of edge ranges (network address 0.0.0.0, top of the address space) up to length 3, and the main alphabet to length 3 on filters whose 200/256/257/300 filler ranges were all removed again, replayed from empty and after 254/255/256 filler adds so that they run in list mode, across the list→map migration and in map mode; plus seeded random sequences over a small universe steered across the migration; plus histories on filters holding 65 535 .. 70 000 (thorough: 300 000) ranges, which are then all removed again), every boundary address of every touched range probed in 4- and 16-byte form (and as the tail of genuine IPv6 addresses, also ones whose sixth group is ffff, and of the IPv4-compatible form, which only 0.0.0.0/0 covers; in a quarter of the sequences the caller recycles one net.IPNet and one lookup buffer, overwriting them in place between the calls) against a set-of-prefixes model; the package's other exported helpers (FirstIP/LastIP) are called between the operations, and in 1/8 (exhaustive) resp. 1/3 (random) of the sequences a second filter instance receives the same history shifted into another address space, each instance probed with both spaces against its own model; distinct_nontrivial = distinct (filler, sequence) pairs whose sequence changes the model at least once"
 }
 
 func (mon) Assumptions(string) []string {
@@ -481,6 +514,9 @@ func seqKey(cs Case) string {
 	if cs.Big > 0 {
 		fmt.Fprintf(&sb, "big%d:", cs.Big)
 	}
+	if cs.Reuse {
+		sb.WriteString("reuse:")
+	}
 	for _, o := range cs.Ops {
 		sb.WriteString(o.String())
 		sb.WriteByte(';')
@@ -532,7 +568,7 @@ func (mn mon) Run(sh drv.Shard, c *drv.Ctx) {
 				idx++
 				if idx%a.Parts == a.Part {
 					for _, fl := range fillers {
-						cs := Case{Filler: fl[0], FillerRem: fl[1], Ops: append([]Op(nil), prefix...), ProbeEvery: 1, RandProbes: 2, Seed: sh.Seed + int64(idx), Twin: (idx/a.Parts)%8 == 0}
+						cs := Case{Filler: fl[0], FillerRem: fl[1], Ops: append([]Op(nil), prefix...), ProbeEvery: 1, RandProbes: 2, Seed: sh.Seed + int64(idx), Twin: (idx/a.Parts)%8 == 0, Reuse: (idx/a.Parts)%4 == 1}
 						if c.NumSamples() < 2 && len(prefix) == a.MaxLen && fl[0] == 255 {
 							c.Sample(map[string]any{"filler": fl, "ops": opsStrings(cs.Ops)})
 						}
@@ -620,6 +656,7 @@ func (mn mon) Run(sh drv.Shard, c *drv.Ctx) {
 				cs.Ops = cs.Ops[:300]
 			}
 			cs.Filler, cs.Big, cs.BigDrain, cs.ProbeEvery, cs.RandProbes = fl, a.Count, true, 30, 8
+			cs.Reuse = fl != 0
 			c.Sample(map[string]any{"filler": cs.Filler, "big_fill": cs.Big, "ops": len(cs.Ops)})
 			if !exec(cs) {
 				break
@@ -630,6 +667,7 @@ func (mn mon) Run(sh drv.Shard, c *drv.Ctx) {
 		for i := 0; i < a.Count; i++ {
 			cs := randCase(r)
 			cs.Twin = i%3 == 0
+			cs.Reuse = i%4 == 1
 			if c.NumSamples() < 2 {
 				ops := opsStrings(cs.Ops)
 				if len(ops) > 12 {
